@@ -110,6 +110,15 @@ let () =
            if any_panic then Some "Writer panicked"
            else if any_hang then Some "Writer call did not return (no progress)"
            else if kind = "WHF" then (if c16w_monitor steps log then None else Some "after a failed destination write a later write/flush succeeded or more bytes were sent")
+           else if fail = "-" && List.length exts <= 1
+                   && List.exists (function WSetExt _ -> true | _ -> false) ops_l
+                   && not (List.exists (function WWriteThrough _ -> true | _ -> false) ops_l)
+                   && List.for_all (function WSetExt xs -> List.length xs <= 1 | _ -> true) ops_l
+                   && List.exists (fun ob -> ob.o_err <> None) gobs then
+             (* SetExtensions REPLACES the list: with at most one extension attached at any time and a working
+                destination no write or flush has a reason to fail (WriteThrough, which refuses a non-empty
+                buffer, is left out) *)
+             Some "a write or flush failed although the destination works and at most one extension is attached"
            else if List.exists (function WReset _ | WSetExt _ -> true | _ -> false) ops_l || List.length exts > 1 then None
            else if List.exists (function WResetOp _ -> true | _ -> false) ops_l then begin
              (* the quick opcode reset: what was buffered is dropped, then the writer behaves as a new one
